@@ -261,7 +261,11 @@ CLAIMED = {
              "and every op log accepted by the control skeleton, yields a valid assignment; the state where the reassignment loop "
              "stops is KIP-54 balanced (balance of a reverted result: partial); the three boolean checkers are sound and complete. "
              "The real assignors agree with the models on the complete <=4-member x <=3-topic x 0..4-partition space and on random "
-             "inputs; every real sticky op log is accepted and every result passes the proved checkers.",
+             "inputs; every real sticky op log is accepted and every result passes the proved checkers - except the runs whose "
+             "balancing passes go round in a circle (about 1 in 150 000 ordinary rebalances with different subscriptions): they "
+             "never terminated before /repo 0d5eafa, are stopped at the first repeated assignment since, end by neither exit of "
+             "the model's loop and return a valid but unbalanced assignment (known finding K5, corpus/C14/pingpong.json). Every "
+             "sticky case runs under a CPU watchdog; a run that does not terminate is a violation with the case as replay.",
         note="Trusted: Coq kernel and vm_compute; OCaml extraction + 20-line driver (re-evaluated on a sample inside Coq); stream "
              "encoders and op-log wrappers; stub cluster with partitions 0..n-1. The sticky visiting order and hash-order choices "
              "are abstracted; KIP-54 balance of a reverted result is searched, not proved (C14_sticky_balanced_full stays open). No axioms.",
